@@ -17,8 +17,8 @@ def scenarios(rng, tier):
         M = mac(1); ME = M if rng.random() < 0.6 else mac(40)
         s.frame(0, discover(M, gen=1, esrc=ME))
         for rnd in range(rng.choice([1, 2, 3])):
-            kk = rng.choice([0, 1, 2, cap - 1, cap, cap + 1, 2 * cap, 2 * cap + 1, 300] if mtu < 9216 else [0, 1, 5, 300])
-            kk = min(kk, 320)
+            kk = rng.choice([0, 1, 2, cap - 1, cap, cap + 1, 2 * cap, 2 * cap + 1, 300, cap + 255, cap + 256, cap + 257] if mtu < 9216 else [0, 1, 5, 300])
+            kk = min(kk, 600)
             srcs = rng.sample(range(100, 100000), kk)
             for x in srcs:
                 a, bm = mac(x), mac(x + 200000) if rng.random() < 0.3 else mac(x)
@@ -32,10 +32,17 @@ def scenarios(rng, tier):
                 elif r < 0.24: s.frame(0, emit(M, own, [(1, 0, mac(7), mac(8))], seq=9, esrc=ME))
                 elif r < 0.25: s.frame(0, generic(rng.randrange(256), rng.choice([1, 2]), a, a, own, own))
             nq = kk // cap + 1 + rng.choice([0, 1]) if rng.random() < 0.8 else 1
+            reobs = srcs[-3:] + srcs[:2]
             for q in range(nq):
+                if q == 1 and reobs and rng.random() < 0.7:
+                    # stations already reported are seen again between two Queries (the most recently recorded ones first):
+                    # a new observation each, to be reported again
+                    for x in reobs[:rng.choice([1, 2, 5])]: s.frame(0, probe(mac(x), own, mac(x), own))
                 # the Query may arrive by another path than the frame that opened the session (direct / through a bridge)
                 s.frame(0, query(M, own, seq=rng.randrange(1, 65536), esrc=rng.choice([ME, ME, M, mac(41)])))
             if rng.random() < 0.25: s.frame(0, reset(M)); s.frame(0, discover(M, gen=1, esrc=ME))
+    fam_full_lists(s, 'full', RESIDUE_MTUS[::2] if tier == 'quick' else RESIDUE_MTUS)
+    fam_mtu_change(s, 'mtuchg', rng, 8 if tier == 'quick' else 150)
     return [(s.text(), {})]
 def project(blk, name, meta):
     # for a Query: sequence number, destination, how many observations are listed and the more flag (which ones, and in
@@ -55,7 +62,8 @@ def oracle(name, ib, mb, meta):
     fails = []; mtu = 1500; own = OWN0; tr = None
     for i, b in enumerate(ib):
         if b.op.startswith('cfg 0'):
-            kv = dict(t.split('=', 1) for t in b.op.split()[2:]); mtu = int(kv['mtu']); own = bytes.fromhex(kv['mac'])
+            kv = dict(t.split('=', 1) for t in b.op.split()[2:]); mtu = int(kv.get('mtu', mtu)); own = bytes.fromhex(kv.get('mac', own.hex()))
+            if kv.get('mtufail') == '1' or mtu == 0: mtu = 1500 if 'c07' != 'c06' else -1   # getter fails: the responder assumes 1500 (an Emit is dropped)
         if tr is None: tr = SeeTracker(own)
         if not b.op.startswith('frame') or b.fault: continue
         ctx, fr = frame_of(b); d = dec(fr + bytes(max(0, 36 - len(fr))))
